@@ -22,6 +22,10 @@ def register(M):
                 return [Ref(v.cell, v.path + (('idx', bv(i)),)) for i in range(len(inner.items))]
             if isinstance(inner, Ref):
                 return seq_of(ex, inner, what)
+            if isinstance(inner, Obj) and inner.kind == 'iter':
+                # an iterator consumed through `&mut`: whoever iterates it takes the items out
+                ex.write_path(v.cell, v.path, inner.set(items=()))
+                return list(inner.items)
             inner = ex.materialize(inner)
             if isinstance(inner, Adt) and T.type_name_hint(inner.ty)[0] == 'Option':
                 # Option::iter / iter_mut through a reference: a reference to the payload
@@ -150,7 +154,7 @@ def register(M):
             return Adt(dty, {(0, 0): Obj('vec', items=tuple(oks), ty=generic_args(dty)[0])}, 0, None)
         raise Inconclusive('collect into %s' % dty)
 
-    @reg('iter::once')
+    @reg('iter::once', 'once')
     def _(ex, info, a, dty):
         return mkiter([a[0]], dty)
 
@@ -191,8 +195,36 @@ def register(M):
         n = conc(z3.simplify(a[1]))
         if n is None:
             raise Inconclusive('take/skip with a symbolic count')
+        src = ex.materialize(a[0])
+        if isinstance(src, Ref) and info['method'] == 'take':
+            under = ex.read_path(src.cell, src.path)
+            if isinstance(under, Obj) and under.kind == 'iter':
+                # `by_ref().take(n)`: the items are taken OUT of the underlying iterator (consumed eagerly here: every use
+                # in the code under analysis drains the adapter at once)
+                ex.write_path(src.cell, src.path, under.set(items=under.items[n:]))
+                return mkiter(under.items[:n], dty)
         items = seq_of(ex, a[0])
         return mkiter(items[:n] if info['method'] == 'take' else items[n:], dty)
+
+    @reg('Iterator::by_ref')
+    def _(ex, info, a, dty):
+        return a[0]
+
+    @reg('Iterator::take_while')
+    def _(ex, info, a, dty):
+        out = []
+        for it in seq_of(ex, a[0]):
+            if not ex.branch(ex.call_value(a[1], [M.mkref(it)])):
+                break
+            out.append(it)
+        return mkiter(out, dty)
+
+    @reg('Iterator::fold')
+    def _(ex, info, a, dty):
+        acc = a[1]
+        for it in seq_of(ex, a[0]):
+            acc = ex.call_value(a[2], [acc, it])
+        return acc
 
     @reg('Iterator::for_each')
     def _(ex, info, a, dty):
@@ -353,13 +385,30 @@ def register(M):
 
     @reg('Vec::is_empty', '<impl>::is_empty')
     def _(ex, info, a, dty):
+        sv = ex.materialize(a[0])
+        for _ in range(3):
+            if isinstance(sv, Ref):
+                sv = ex.materialize(ex.read_path(sv.cell, sv.path))
+        if isinstance(sv, Obj) and sv.kind == 'str':
+            return z3.BoolVal(sv.text in ('""', ''))
+        if isinstance(sv, Obj) and sv.kind == 'symstr':
+            return z3.Bool('is-empty(%s)' % sv.name)          # a free Boolean per symbolic string
         cell, path, v = vec_at(ex, a[0])
         return z3.BoolVal(len(v.items) == 0)
 
-    @reg('Vec::extend', 'Extend::extend')
+    @reg('Vec::extend', 'Extend::extend', 'Vec::extend_from_slice')
     def _(ex, info, a, dty):
         cell, path, v = vec_at(ex, a[0])
         ex.write_path(cell, path, v.set(items=v.items + tuple(seq_of(ex, a[1]))))
+        return UNIT
+
+    @reg('Vec::truncate')
+    def _(ex, info, a, dty):
+        cell, path, v = vec_at(ex, a[0])
+        n = conc(z3.simplify(a[1]))
+        if n is None:
+            raise Inconclusive('Vec::truncate to a symbolic length')
+        ex.write_path(cell, path, v.set(items=v.items[:n]))
         return UNIT
 
     @reg('Vec::clear')
